@@ -235,7 +235,25 @@ func runInBubble(s Script) (res vt.Result) {
 	ntPre, ntFailedInit, sawMeta, sawLegacy := false, false, false, false
 	failedInit := false
 
-	seenResp := 0
+	// Log-level probe, part 1: what an emergency log message produces on the untouched session (the SDK's
+	// default for "no level set" is its own business; the property only says rejected requests do not change it).
+	logProbe := func() int {
+		before := len(peer.Received())
+		ss.Log(context.Background(), &mcp.LoggingMessageParams{Level: "emergency", Data: "probe"})
+		synctest.Wait()
+		n := 0
+		for _, raw := range peer.Received()[before:] {
+			var r response
+			json.Unmarshal(raw, &r)
+			if r.Method == "notifications/message" {
+				n++
+			}
+		}
+		return n
+	}
+	baselineLogs := logProbe()
+
+	seenResp := len(peer.Received())
 	for i, m := range s.Msgs {
 		mu.Lock()
 		reachedBefore := len(reached)
@@ -307,6 +325,11 @@ func runInBubble(s Script) (res vt.Result) {
 			metaBad := m.Meta == "nocaps" || m.Meta == "nullcaps" || m.Meta == "nullinfo" || m.Meta == "badcaps" || m.Meta == "badinfo"
 			verBad := m.Meta == "newer"
 			removed := slices.Contains(removedInModern, m.Method)
+			// clientInfo is documented optional; an explicit null may be refused (wrong type) or taken as absent.
+			// If it was not refused with -32602 the request is judged like one with complete metadata.
+			if m.Meta == "nullinfo" && !(isErr && code == -32602) && (notif && didReach || !notif && resp != nil) {
+				metaBad = false
+			}
 			switch {
 			case metaBad || verBad:
 				if didReach || toolDelta+initdDelta+rootsDelta+subDelta > 0 {
@@ -317,19 +340,23 @@ func runInBubble(s Script) (res vt.Result) {
 					if verBad {
 						want = []int{-32022}
 					}
+					if removed {
+						// two defects at once: the property gives no precedence, method-not-found is as good an answer
+						want = append(want, -32601)
+					}
 					if !isErr || !slices.Contains(want, code) {
 						res.Failf("msg %d: %s with metadata defect %q answered %s, want error code %v", i, m.Method, m.Meta, brief(resp), want)
-					} else if verBad {
+					} else if verBad && code == -32022 {
 						var d struct {
 							Supported []string `json:"supported"`
 						}
 						json.Unmarshal(resp.Error.Data, &d)
-						if !slices.Equal(d.Supported, sdkVersions) {
+						if !sameVersions(d.Supported, sdkVersions) {
 							res.Failf("msg %d: -32022 lists supported versions %v, want %v", i, d.Supported, sdkVersions)
 						}
 					}
 				}
-				if ss.InitializeParams() != ipBefore {
+				if !sameParams(ss.InitializeParams(), ipBefore) {
 					res.Failf("msg %d: rejected request changed the session's InitializeParams", i)
 				}
 			case removed:
@@ -345,14 +372,15 @@ func runInBubble(s Script) (res vt.Result) {
 					if isErr && (code == -32602 && m.Method != "prompts/get" || code == -32022 || code == -32601 && m.Method != "server/discover" || code == 0) && gateLike(resp.Error.Message) {
 						res.Failf("msg %d: %s with complete 2026-07-28 metadata was refused: %s", i, m.Method, brief(resp))
 					}
-					if !didReach {
+					// (server/discover is session-independent data: a result is proof of service wherever it was produced)
+					if !didReach && !(m.Method == "server/discover" && !isErr) {
 						res.Failf("msg %d: %s with complete 2026-07-28 metadata did not reach the server's handlers: %s", i, m.Method, brief(resp))
 					}
 				}
 				if didReach && m.Method != "server/discover" {
 					mixed = true
 				}
-				if m.Method == "server/discover" && didReach {
+				if m.Method == "server/discover" && (didReach || !isErr) {
 					mixed = true // discover records the client's parameters on stdio-like transports
 				}
 			}
@@ -362,11 +390,15 @@ func runInBubble(s Script) (res vt.Result) {
 		// ---- legacy-protocol message ----
 		sawLegacy = true
 		if m.Method == "server/discover" {
-			if didReach {
-				res.Failf("msg %d: server/discover without 2026-07-28 metadata reached handlers", i)
-			}
-			if !isErr || code != -32601 {
-				res.Failf("msg %d: server/discover without 2026-07-28 metadata answered %s, want -32601", i, brief(resp))
+			// The property is silent about discover without per-request metadata: on a session no initialize
+			// has been accepted on it is gated like any other method (any error will do); afterwards it is not judged.
+			if phase == "fresh" && !mixed {
+				if didReach {
+					res.Failf("msg %d: server/discover without 2026-07-28 metadata reached handlers before any initialize was accepted", i)
+				}
+				if !isErr {
+					res.Failf("msg %d: server/discover without 2026-07-28 metadata was served (%s) before any initialize was accepted", i, brief(resp))
+				}
 			}
 			continue
 		}
@@ -382,6 +414,9 @@ func runInBubble(s Script) (res vt.Result) {
 		switch m.Method {
 		case "initialize":
 			wellFormed := strings.HasPrefix(m.Init, "ok:")
+			if phase == "fresh" && m.Init == "ok:" && isErr {
+				wellFormed = false // an empty protocolVersion may be refused as invalid: judged as a failed initialize
+			}
 			switch {
 			case phase == "fresh" && wellFormed:
 				if isErr {
@@ -411,7 +446,7 @@ func runInBubble(s Script) (res vt.Result) {
 				if !isErr {
 					res.Failf("msg %d: second initialize was accepted (phase %s)", i, phase)
 				}
-				if ss.InitializeParams() != ipBefore {
+				if !sameParams(ss.InitializeParams(), ipBefore) {
 					res.Failf("msg %d: second initialize changed the session's InitializeParams", i)
 				}
 			}
@@ -448,8 +483,11 @@ func runInBubble(s Script) (res vt.Result) {
 				if m.Method == "logging/setLevel" && !isErr {
 					modelLevel = m.Level
 				}
-				if !notif && isErr && gateLike(resp.Error.Message) {
-					res.Failf("msg %d: %s refused after initialize was accepted: %s", i, m.Method, brief(resp))
+				// Judged only once the handshake is complete (the property does not promise service between
+				// initialize and initialized) and not for a non-string _meta protocolVersion, which a stricter
+				// server may answer with invalid-params as the HTTP layer already does.
+				if !notif && isErr && gateLike(resp.Error.Message) && phase == "initialized" && m.Meta != "nonstring" {
+					res.Failf("msg %d: %s refused after the handshake was complete: %s", i, m.Method, brief(resp))
 				}
 			}
 		}
@@ -457,12 +495,9 @@ func runInBubble(s Script) (res vt.Result) {
 
 	// Log-level probe: a rejected logging/setLevel must not have changed session state.
 	if !mixed && len(res.Violations) == 0 {
-		before := len(peer.Received())
-		ss.Log(context.Background(), &mcp.LoggingMessageParams{Level: "emergency", Data: "probe"})
-		synctest.Wait()
-		got := len(peer.Received()) - before
-		if modelLevel == "" && got != 0 {
-			res.Failf("a log message was emitted although no logging/setLevel was ever accepted: session log level changed by a rejected request")
+		got := logProbe() // counts notifications/message only: other notifications are not this check's business
+		if modelLevel == "" && got != baselineLogs {
+			res.Failf("an emergency log message produced %d notification(s) on the fresh session and %d now although no logging/setLevel was ever accepted: session log level changed by a rejected request", baselineLogs, got)
 		}
 		if modelLevel != "" && got != 1 {
 			res.Failf("log level %q was accepted but an emergency log message produced %d notifications", modelLevel, got)
@@ -484,6 +519,36 @@ func runInBubble(s Script) (res vt.Result) {
 		res.Class(fmt.Sprintf("respelled_json_mode_%d", s.Spell))
 	}
 	return res
+}
+
+// sameParams compares two InitializeParams by value: an accessor that hands out a defensive copy does
+// not change session state (pointer identity is not part of the property).
+func sameParams(a, b *mcp.InitializeParams) bool {
+	if a == nil || b == nil {
+		return a == b
+	}
+	ja, _ := json.Marshal(a)
+	jb, _ := json.Marshal(b)
+	return string(ja) == string(jb)
+}
+
+// sameVersions compares two version lists as sets: the property says the supported versions are listed,
+// not in which order.
+func sameVersions(got, want []string) bool {
+	if len(got) != len(want) {
+		return false
+	}
+	for _, v := range want {
+		if !slices.Contains(got, v) {
+			return false
+		}
+	}
+	for _, v := range got {
+		if !slices.Contains(want, v) {
+			return false
+		}
+	}
+	return true
 }
 
 func gateLike(msg string) bool {
